@@ -163,6 +163,7 @@ class World(object):
     MAX_FIRINGS = 4000
     MAX_EVENTS = 60000
     T_MAX = 1.0e9
+    LATE = 2.0 ** -30
 
     def __init__(self, cfg):
         self.cfg = cfg
@@ -839,8 +840,10 @@ class World(object):
             # "now + a retry interval"; such timers count as out of reach
             return False
         clock = REACTOR.clock
-        if t > clock.rightNow:
-            clock.rightNow = t
+        # a reactor always runs a delayed call a little late, never exactly on time; without that
+        # LoopingCall's "time until the next interval" can round to a few ulps and fire twice
+        if t + self.LATE > clock.rightNow:
+            clock.rightNow = t + self.LATE
         clock.advance(0)
         return True
 
